@@ -138,6 +138,40 @@ def check(ctx):
                 cases.append(payload)
         if k < 2:
             ctx.sample(payload)
+    # variables built from names that are not strings (Var normalises its name with str()): Var(1) and Var("1") are the same variable,
+    # so they -- and terms, lists and contracts over them -- must compare AND hash alike, and survive the dictionary round trip
+    from pacti.contracts import PolyhedralIoContract
+    from pacti.terms.polyhedra import PolyhedralTerm, PolyhedralTermList
+    for raw in ([1, 7, 2.5, 10 ** 6, True] if ctx.quick else [1, 7, 2.5, 10 ** 6, True, -3, 0, 1e-3, 12345678901234567890]):
+        va, vb = Var(raw), Var(str(raw))
+        info = {"raw_name": repr(raw), "string_name": str(raw)}
+        hist["var_pairs"] = hist.get("var_pairs", 0) + 1
+        if (va == vb) != (str(va) == str(vb)):
+            ctx.violation("eq:var_eq_not_by_name", "two variables with the same (normalised) name compare unequal, or with different names equal", info)
+        if va == vb and hash(va) != hash(vb):
+            ctx.violation("eq:equal_but_different_hash:var", "equal variables hash differently", info)
+        if va == vb and len({va, vb}) != 1:
+            ctx.violation("eq:equal_but_different_hash:var", "a set keeps two equal variables", info)
+        x, o = Var("x"), Var("o")
+        mk = lambda v: PolyhedralIoContract(assumptions=PolyhedralTermList([PolyhedralTerm({v: 1.0}, 4.0)]),        # noqa: E731
+                                            guarantees=PolyhedralTermList([PolyhedralTerm({o: 1.0, v: -2.0, x: 1.0}, 0.5)]),
+                                            input_vars=[x, v], output_vars=[o])
+        try:
+            ca, cb = mk(va), mk(vb)
+        except Exception as e:  # noqa: BLE001
+            ctx.violation("eq:escape:" + type(e).__name__, "building a contract over a variable with a non-string name raised", dict(info, error=str(e)[:200]))
+            continue
+        for what, p, q in (("contract", ca, cb), ("assumptions", ca.a, cb.a), ("guarantees", ca.g, cb.g), ("term", ca.g.terms[0], cb.g.terms[0])):
+            if not (p == q and q == p):
+                ctx.violation("eq:same_name_unequal:" + what, f"two {what}s over the same variable, named once by a number and once by its string, compare unequal", info)
+            elif hash(p) != hash(q):
+                ctx.violation("eq:equal_but_different_hash:" + what, f"equal {what}s (a variable named by a number / by its string) hash differently", info)
+        rt = PolyhedralIoContract.from_dict(ca.to_machine_dict(), simplify=False)
+        if not (rt == ca and ca == rt and hash(rt) == hash(ca)):
+            ctx.violation("eq:roundtrip_differs", "machine-dictionary round trip of a contract over a variable with a non-string name is not equal / hashes differently", info)
+        cp = ca.copy()
+        if not (cp == ca and hash(cp) == hash(ca)):
+            ctx.violation("eq:copy_differs", "a copy of a contract over a variable with a non-string name is not equal / hashes differently", info)
     mism, errs = pp.evaluate_cases("c19", exprs, chunk=200)
     for e in errs:
         ctx.broke("correspondence:equality", "cases file failed: " + e)
